@@ -513,3 +513,7 @@ def run(ck: Check, repo: Repo) -> None:
     c16.rule_format_strings(ck, repo, "R8")
     rule_style_predicates(ck, repo)
     rule_write_cannot_fail_on_content(ck, repo)
+    # 'the remaining files are still processed' on their own terms: the request object shared by all files of one invocation
+    # is never mutated - what a failing file put into it would decide the fate of the files after it (shared with C09-R5)
+    from . import c09
+    c09.rule_no_mutation(ck, repo, "R11")
